@@ -103,8 +103,18 @@ def check_case(case):
     desc = case['span']
     labels = spans.labels(desc)
     n = len(labels)
-    obj = CO.make_object(kind, desc, strict=case.get('strict', False))
+    want_dtype = {None: None, 'int': int, 'float32': np.float32, 'bool': bool}[case.get('dtype')]
+    obj = CO.make_object(kind, desc, strict=case.get('strict', False), dtype=want_dtype)
     res = Result(classes=['object:' + kind])
+    if want_dtype is not None and kind != 'container':
+        # created with a default dtype: the class's own variables carry it from the start
+        res.tag('created-with-dtype:' + case['dtype'])
+        for nm in type(obj).NAMES:
+            got_dt = obj.__dict__['_' + nm].dtype
+            if got_dt != np.dtype(want_dtype):
+                res.fail(f'creation/dtype/{kind}', f'{kind} created with dtype={case["dtype"]}: variable {nm} has dtype {got_dt}')
+        if res.violations:
+            return res
     shadow = {nm: np.array(obj.__dict__['_' + nm]) for nm in CO.variables(obj)}
     creation = {nm: a.dtype for nm, a in shadow.items()}
     failed_before = False
@@ -340,8 +350,10 @@ def gen_singles_and_pairs(pairs):
                 n = len(spans.labels(desc))
                 ops = reduced_ops(n)
                 for strict in (False, True):
-                    for op in ops:
+                    for i, op in enumerate(ops):
                         yield {'kind': kind, 'span': desc, 'strict': strict, 'ops': [op]}
+                        if kind != 'container' and i % 4 == 0:
+                            yield {'kind': kind, 'span': desc, 'strict': strict, 'ops': [op], 'dtype': ['int', 'float32', 'bool'][(i // 4) % 3]}
                 if pairs and kind != 'linker':
                     sub = ops[::3]
                     for a, b in itertools.product(sub, repeat=2):
@@ -357,7 +369,8 @@ def strategy():
         desc = draw(st.sampled_from(SPANS))
         n = len(spans.labels(desc))
         return {'kind': draw(st.sampled_from(['container', 'container', 'model', 'linker'])), 'span': desc,
-                'strict': draw(st.booleans()), 'ops': draw(st.lists(CO.op_strategy(n), min_size=1, max_size=25))}
+                'strict': draw(st.booleans()), 'ops': draw(st.lists(CO.op_strategy(n), min_size=1, max_size=25)),
+                'dtype': draw(st.sampled_from([None, None, None, 'int', 'float32', 'bool']))}
     return cases()
 
 
